@@ -142,24 +142,27 @@ def r4_restart(ctx):
     if not f:
         return
     stores = [s for s in f.calls() if s.name == STORE and any(x[0] == 'field' and x[2] == 'active' for x in walk(f.expr_operand(s.args[0], s.b, 'T')))]
-    starts = f.calls_to(EV + 'at_sim_start')
+    starts = per_item_calls(ctx.P, f, EV + 'at_sim_start')
     if not (ctx.floor('active store in module_restart', len(stores), 1) and ctx.floor('at_sim_start in module_restart', len(starts), 1)):
         return
-    s0, a0 = stores[0], starts[0]
+    s0, w = stores[0], starts[0]
     val = f.expr_operand(s0.args[1], s0.b, 'T')
-    ctx.check(val == ('int', 1) and f.dominates(s0.b, a0.b) and s0.b != a0.b and not f.loops_containing(s0.b), 'active-before-startup',
+    ctx.check(val == ('int', 1) and f.dominates(s0.b, w.anchor) and s0.b != w.anchor and not f.loops_containing(s0.b), 'active-before-startup',
               'the module is marked active before its start-up stages run (so that start-up code can send and is_active() is true)', s0.where(), show(val))
-    # the loop: stage in 0..num_sim_start_stages()
-    ok = False
-    stage = peel(f.expr_operand(a0.args[1], a0.b, 'T'))
-    for x in walk(stage):
-        if x[0] == 'call' and x[1].endswith('::next'):
-            rng = [y for y in walk(x) if y[0] == 'agg' and 'Range' in y[1]]
-            if rng and rng[0][2][0] == ('int', 0) and any(z[0] == 'call' and z[1] == EV + 'num_sim_start_stages' for z in walk(rng[0][2][1])):
-                ok = True
-    ctx.check(ok and bool(f.loops_containing(a0.b)), 'all-stages', 'restart runs at_sim_start for every stage 0..num_sim_start_stages()', a0.where(), show(stage)[:200])
+    # the iteration: stage in 0..num_sim_start_stages()  (for loop, or try_for_each over the range)
+    it = w.it
+    rng = [y for y in walk(it)] if it else []
+    rng = [y for y in rng if y[0] == 'agg' and 'Range' in str(y[1])]
+    ok = bool(rng) and rng[0][2][0] == ('int', 0) and any(z[0] == 'call' and z[1] == EV + 'num_sim_start_stages' for z in walk(rng[0][2][1])) \
+        and w.trees is not None and len(w.trees) > 1 and from_item(w.fn, w.trees[1])
+    ctx.check(ok, 'all-stages', 'restart runs at_sim_start for every stage 0..num_sim_start_stages()', w.site.where(), {'form': w.form, 'iterator': show(it)[:160] if it else None})
     # error propagation: a failing stage aborts the restart with the error (not silently ignored)
-    ctx.check(any(s.name.endswith('::branch') or 'Try' in s.name for s in f.calls()), 'stage-error-propagated', 'a panicking start-up stage is reported', f.where())
+    if w.form == 'loop':
+        prop = any(s.name.endswith('::branch') or 'Try' in s.name for s in f.calls())
+    else:
+        prop = any(any(x[0] == 'call' and x[1].endswith('try_for_each') for x in walk(t)) for _, t in ret_trees(f)) and \
+            all(any(x[0] == 'call' and x[1] == EV + 'at_sim_start' for x in walk(t)) for _, t in ret_trees(w.fn))
+    ctx.check(prop, 'stage-error-propagated', 'a panicking start-up stage is reported', f.where())
 
 
 def r5_reset_order(ctx):
